@@ -109,6 +109,11 @@ func versionFromPath(path string) (string, int) {
 	}
 	dot += und
 
+	// Not a name the builder writes, for example "x_.zoekt".
+	if und+2 > dot {
+		return path, 0
+	}
+
 	version, err := strconv.Atoi(path[und+2 : dot])
 	if err != nil {
 		return path, 0
